@@ -771,7 +771,7 @@ def alias_group(rng):
 def history_group(rng, kind=None):
     """returns {"kind", "members": [(member name, [(entry, schema text, doc bytes)])]}: one member = one operator variant at one
     entry point with all the distinguishing documents"""
-    kind = kind or rng.choice(["regex", "regex", "regex", "eqne-text", "eqne-int", "cmp", "cut", "range", "occur", "type", "alias", "alias"])
+    kind = kind or rng.choice(["regex", "regex", "regex", "eqne-text", "eqne-int", "cmp", "cut", "range", "occur", "type", "alias"])
     if kind == "alias":
         return alias_group(rng)
     ctx_s, ctx_d, ctx_n = rng.choice(CONTEXTS)
@@ -842,6 +842,14 @@ def group_orders(rng, n_members, extra):
     if n_members <= 3:
         return [list(p) for p in itertools.permutations(idx)]
     orders = []
+    if n_members > 8:
+        # large groups (alias histories): random arrangements together with their reversals, so that every ordered pair of
+        # members (in particular every "poisoning" schema before every "probe" schema) occurs in some history
+        for _ in range(max(2, (extra + 1) // 2 + 1)):
+            o = idx[:]
+            rng.shuffle(o)
+            orders += [o, o[::-1]]
+        return orders
     for f in idx:
         rest = [i for i in idx if i != f]
         rng.shuffle(rest)
